@@ -326,6 +326,17 @@ def run(ctx):  # noqa: C901, PLR0912, PLR0915
            'tabs (legal for an xs:list) is accepted but matches no report', fi=ab)
     from .c09 import gathers_isolate_subscribers
     gathers_isolate_subscribers(ctx, 'C08.R2')
+    # whatever makes a delivery fail is counted: the handler that counts the error in the senders is a catch-all (a timeout, an
+    # unreachable host, a name that does not resolve are OSErrors that are no ConnectionError)
+    for q_snd, _post in SENDERS:
+        sfi = repo.func(q_snd)
+        hs_ = [h for h in walk_no_nested(sfi.node) if isinstance(h, ast.ExceptHandler) and
+               any(isinstance(x, ast.AugAssign) and 'notify_errors' in unparse(x.target) for b in h.body for x in ast.walk(b))]
+        wide = [h for h in hs_ if h.type is None or unparse(h.type).split('.')[-1] in ('Exception', 'BaseException')]
+        ctx.ob('C08.R2', f'{sfi.cls.name}: every failure is counted', bool(wide),
+               f'{sfi.name} counts a delivery failure for every exception of the post' if wide else
+               f'{sfi.name} counts delivery failures only for {[unparse(h.type) for h in hs_]}: a connect timeout (TimeoutError) or an '
+               f'unreachable host (OSError) passes uncounted, the dead subscriber never reaches the failure limit', fi=sfi)
     # a delivery that the subscriber answers with an HTTP error is a failed delivery whatever the body says: in the sync soap
     # client every path from "status >= 300" ends in a raise (the senders count the error from that exception)
     for q_sr in ('sdc11073.pysoap.soapclient.SoapClient._send_soap_request',
@@ -454,6 +465,17 @@ def run(ctx):  # noqa: C901, PLR0912, PLR0915
            node=stale[0].stmt if stale else None)
 
     pool_user_released_under_its_netloc(ctx, 'C08.R5')
+    # the subscription asks the pool every time: the client it gets depends on the net location it asks for (EndTo may live on
+    # another host than NotifyTo) - a client remembered from the first call answers for the wrong host
+    gsc = repo.func(f'{SB}.SubscriptionBase._get_soap_client')
+    stores_ = [unparse(t) for x in walk_no_nested(gsc.node) if isinstance(x, (ast.Assign, ast.AnnAssign, ast.AugAssign))
+               for t in (x.targets if isinstance(x, ast.Assign) else [x.target]) if unparse(t).startswith('self.')]
+    rets_ = [r.value for r in walk_no_nested(gsc.node) if isinstance(r, ast.Return) and r.value is not None]
+    from_pool = bool(rets_) and all(isinstance(v, ast.Call) and call_name(v) == 'get_soap_client' for v in rets_)
+    ctx.ob('C08.R5', '_get_soap_client asks the pool on every call', not stores_ and from_pool,
+           '_get_soap_client returns what the pool has for the requested net location, every time' if not stores_ and from_pool else
+           f'_get_soap_client keeps / returns a remembered client ({stores_ or [unparse(v)[:40] for v in rets_]}): after the first '
+           f'notification the SubscriptionEnd for an EndTo on another host is posted to the NotifyTo host', fi=gsc)
     # ------------------------------------------------------------------ R6
     ac = repo.cls('sdc11073.xml_types.actions.Actions')
     tails = {}
